@@ -55,6 +55,10 @@ func rulesC01(r *Run) {
 				"every path %s→ExecuteSequences must pass %s; witness avoiding it: %s", entry, g, m.Witness(entry, g, "ExecuteSequences"))
 		}
 	}
+	// round-4 seed C01-8: "blocks one at a time" includes the block's continuous checks — BlockEnd (and PlanPostChecks for the
+	// plan's) must have drained the result channel until its producer closed it before the next block, or the plan's
+	// post-checks, begin: a single receive returns the buffered result of an earlier run while a run is still in the plugin
+	ruleContJoin(r, "R1", m)
 	subset := func(key string, got []string, allowed ...string) {
 		al := map[string]bool{}
 		for _, a := range allowed {
